@@ -225,9 +225,17 @@ def spell_ids(kind, regime, phase, fabric):
 LAYOUTS = ("O:fortran", "O:strided", "O:readonly", "L:fortran", "L:readonly", "D:strided", "f:strided", "f:readonly", "S:fortran")
 
 
+DTYPE_KINDS = {"int64": np.int64, "int32": np.int32, "int8": np.int8, "float32": np.float32, "float16": np.float16}
+
+
 def relayout(a, how):
-    """the same values in another memory presentation"""
+    """the same values in another memory presentation (layout) or another dtype -- a dtype only when every value is exactly
+    representable in it (otherwise the float64 array is returned unchanged: e.g. the rotated partner of an integer-valued case)"""
     a = np.asarray(a, dtype=float)
+    if how in DTYPE_KINDS:
+        with np.errstate(all="ignore"):
+            b = a.astype(DTYPE_KINDS[how])
+        return b if np.array_equal(b.astype(float), a) else a
     if how == "fortran":
         return np.asfortranarray(a) if a.ndim > 1 else a
     if how == "strided":
@@ -251,7 +259,8 @@ def call_presented(core, c, spelling="int", layout=None, keyword=False):
                S=np.ascontiguousarray(c["S"], dtype=float))
     if layout:
         k, how = layout.split(":")
-        arr[k] = relayout(arr[k], how)
+        for key in (list("OfDL") if k == "all" else list(k)):     # "O", "L", ... one argument; "OL", "all" (= O, f, D, L): several in the same presentation
+            arr[key] = relayout(arr[key], how)
     if keyword:
         return core.derivatives(regime=reg, phase=ph, fabric=fa, n_grains=c["ng"], orientations=arr["O"], fractions=arr["f"],
                                 strain_rate=arr["D"], velocity_gradient=arr["L"], deformation_gradient_spin=arr["S"],
@@ -286,6 +295,52 @@ def presentation_plan(seed, tier="quick"):
         lays = LAYOUTS if tier != "quick" else (lay_q[i % len(lay_q)],)
         for lay in lays:
             plan.append((c, "int", lay, False))
+    return plan
+
+
+DTYPE_LAYOUTS = ("O:int64", "L:int64", "OL:int64", "O:int32", "L:int32", "O:float32", "L:float32", "D:float32", "f:float32",
+                 "all:float32", "OLD:float32", "L:int8", "O:float16", "OL:int32")
+
+
+def dyadic_volumes(rng, n, bits=10):
+    """volume fractions k_i / 2^bits summing to exactly 1 (exactly representable in binary32 and binary16)"""
+    cuts = np.sort(rng.choice(np.arange(1, 2 ** bits), size=n - 1, replace=False)) if n > 1 else np.array([], dtype=int)
+    k = np.diff(np.concatenate([[0], cuts, [2 ** bits]]))
+    return k.astype(float) / 2 ** bits
+
+
+def dtype_plan(seed, tier="quick"):
+    """(case, layout): derivatives on values that are exactly representable in narrower / integer dtypes, handed over IN those
+    dtypes -- axis-aligned grains written as 0/+-1 integer matrices, velocity gradients written with integer literals (odd and even
+    antisymmetric differences, the way the package's own tests write them), dyadic volume fractions.  The rates are functions of
+    the VALUES: a buffer that inherits the dtype of an argument (np.zeros_like / np.empty_like of an integer array) truncates them
+    (seeded changes C02f, C04f).  Two sub-families: aligned integer O with integer L (every dtype presentation applies), and Haar
+    O (float64) with integer L (generic grains: no exact ties, used by the frame-indifference check)."""
+    rng = np.random.default_rng([int(seed), 0xD7E])
+    plan = []
+    lays = DTYPE_LAYOUTS if tier != "quick" else DTYPE_LAYOUTS[:11]
+    k = 0
+    for rep in range(1 if tier == "quick" else 6):
+        for pair in VALID_PAIRS:
+            for regime in (4, 6):
+                for okind in ("aligned", "haar"):
+                    n = int(rng.integers(1, 5))
+                    for _ in range(50):
+                        c = case(rng, n_grains=n, pair=pair, regime=regime, okind=okind, lkind="general", fkind="uniform")
+                        L = rng.integers(-4, 5, size=(3, 3)).astype(float)
+                        if not np.any((L - L.T) % 2) or not np.any(L + L.T):
+                            continue                       # want an odd antisymmetric difference and a non-zero strain rate
+                        c["L"], c["D"], c["f"] = L, (L + L.T) / 2, dyadic_volumes(rng, n)
+                        c["M"] = max(c["M"], 1.0)
+                        if tie_class(c) == "none":
+                            break
+                    else:
+                        continue
+                    c["kinds"] = (okind, "integer-valued L", "dyadic volumes", "dtype")
+                    ls = [x for x in lays if okind == "aligned" or not set(x.split(":")[0]) & set("Oa")]
+                    lay = ls[k % len(ls)]
+                    k += 1
+                    plan.append((c, lay))
     return plan
 
 
